@@ -33,8 +33,22 @@ def gen_seq(rng, maxlen=200):
 
 
 def _gen_seq(rng, maxlen=200):
-    kind = rng.choice(['geo', 'geo', 'geo-dyadic', 'random', 'const-tail', 'alt', 'slow', 'small-alphabet'])
+    kind = rng.choice(['geo', 'geo', 'geo-dyadic', 'random', 'const-tail', 'alt', 'slow', 'small-alphabet', 'near-tie'])
     n = rng.choice([rng.randint(1, 12), rng.randint(1, 40), rng.randint(1, maxlen)])
+    if kind == 'near-tie':
+        # two neighbouring terms 0..4 ulp apart (at, just below or just above a power of two, or anywhere; either sign, either order),
+        # so that the coincidence tests |e1 - e0| <= eps * max(|e0|, |e1|) sit exactly on their threshold; then ordinary terms
+        import numpy as _np
+        e0 = rng.choice([-1, 1]) * rng.choice([2.0 ** rng.randint(-3, 3), rng.uniform(0.5, 4.0)])
+        e1 = e0
+        for _ in range(rng.randint(0, 4)):
+            e1 = float(_np.nextafter(e1, rng.choice([0.0, 10.0 * e0])))
+        if rng.random() < 0.5:
+            e0, e1 = e1, e0
+        pos = rng.choice([0, 0, 1])
+        rest = [e1 * (1 + rng.choice([-1, 1]) * 10.0 ** rng.uniform(-3, -1)) for _ in range(max(n, 3))]
+        seq = ([e0, e1] + rest) if pos == 0 else ([rest[0], e0, e1] + rest[1:])
+        return kind, seq[:max(n, 3)], None
     if kind == 'geo':
         k = rng.randint(1, 4)
         L = rng.uniform(-2, 2)
@@ -188,6 +202,30 @@ def run(ctx):
                     if abs(float(r3[0]) - r) > 1e-9 * max(abs(r), abs(float(r3[0])), 1e-300):
                         ctx.violation('Dea and dea3 disagree on the first three terms', seq=s[:3], dea=float(r), dea3=float(r3[0]))
                         break
+    # --- the coincidence thresholds, enumerated: first two terms within 3 ulp of a power of two on either side (either sign, either
+    # order), third term 0.1 % away: Dea (inline tolerances) and dea3 (tolerances through max_abs) must agree on the third value
+    def _ulps_from(b, k):
+        v = b
+        for _ in range(abs(k)):
+            v = float(np.nextafter(v, (4 * b) if k > 0 else 0.0))
+        return v
+    for sgn in (1.0, -1.0):
+        for base in (1.0, 2.0, 0.5, 4.0, 1.5):
+            for k0 in range(-3, 4):
+                for k1 in range(-3, 4):
+                    for third in (1.001, 0.999):
+                        e0, e1 = sgn * _ulps_from(base, k0), sgn * _ulps_from(base, k1)
+                        e2 = e1 * third
+                        ctx.tried(('threshold', sgn, base, k0, k1, third))
+                        with warnings.catch_warnings():
+                            warnings.simplefilter('ignore')
+                            dd = Dea(3)
+                            dd(e0), dd(e1)
+                            r, _e = dd(e2)
+                            r3, _e3 = dea3(e0, e1, e2)
+                        if abs(float(np.ravel(r3)[0]) - float(r)) > 1e-9 * max(abs(float(r)), 1e-300):
+                            ctx.violation('Dea and dea3 disagree on the first three terms (neighbouring terms within a few ulp of each other)',
+                                          seq=[e0, e1, e2], ulps=[k0, k1], dea=float(r), dea3=float(np.ravel(r3)[0]))
     # --- several Dea (and EpsAlg) objects alive at the same time, fed in lockstep (one per component of a vector sequence): each must
     # return, term by term, exactly what it returns when it is the only object in the process
     for it in range(ctx.budget(30, 300)):
